@@ -421,6 +421,24 @@ fn eval_cli_empty_label(list: &[Entry], scratch: &Scratch) -> Option<Viol> {
     }
 }
 
+/// Sample names may contain `=` (the VCF header allows it). In a samples file the columns are
+/// separated by a tab, so such a name is a name, with or without a label after it.
+fn eval_cli_equals_in_names(list: &[Entry], scratch: &Scratch) -> Option<Viol> {
+    let nm = Naming { id: "equals-in-names", names: ["s0=x", "s0", "x=s1", "s3", "s4"], labels: ["", "A", "B=1", "s0"] };
+    let vcf = vcf_for_n(&[0, 1, 2], &nm);
+    let path = scratch.file(".samples", file_str_n(list, &nm).as_bytes());
+    let o = run_sfs(&["create", "--samples-file", path.to_str().unwrap()], Stdin::Bytes(&vcf), scratch);
+    let _ = std::fs::remove_file(path);
+    match parse_out(&o) {
+        Ok(g) if g == reference(list) => None,
+        other => Some((
+            "C09|cli|samples-file|equals-in-names".to_string(),
+            format!("--samples-file with the lines {:?}: {other:?}, expected {:?} {:?}", file_str_n(list, &nm), reference(list).shape, reference(list).data),
+            J::obj([("kind", J::s("c09-equals-names")), ("list", J::arr(list.iter().map(|(s, l)| J::usizes(&[*s, *l]))))]),
+        )),
+    }
+}
+
 fn vcf_for_n(columns: &[usize], nm: &Naming) -> Vec<u8> {
     let mut cs = CallSet::new(columns.len());
     cs.samples = columns.iter().map(|s| nm.names[*s].to_string()).collect();
@@ -886,6 +904,21 @@ pub fn run(tier: Tier) -> i32 {
             extra: vec![],
         });
     }
+    // `=` inside sample names, in samples files
+    {
+        let res = par_map(lists3.len(), |i| eval_cli_equals_in_names(&lists3[i], &scratch));
+        for v in res.into_iter().flatten() {
+            rep.violation(v.0, v.1, v.2);
+        }
+        rep.part(Part {
+            name: "cli: sample names containing '=' in a samples file".into(),
+            evaluations: lists3.len() as u64,
+            nontrivial: lists3.len() as u64,
+            note: format!("{} lists of <=3 of the samples `s0=x`, `s0`, `x=s1` (labelled and unlabelled lines, labels `A`, `B=1`, `s0`) as tab-separated samples files: the spectrum of the plain spelling", lists3.len()),
+            exhaustive: true,
+            extra: vec![],
+        });
+    }
     // spellings of names and labels
     let mut nj: Vec<(usize, usize)> = Vec::new();
     for ni in 1..NAMINGS.len() {
@@ -977,6 +1010,11 @@ pub fn run(tier: Tier) -> i32 {
 }
 
 pub fn replay(case: &J) -> Option<Vec<String>> {
+    if case.get("kind").and_then(|k| k.as_str()) == Some("c09-equals-names") {
+        let list: Vec<Entry> = case.get("list")?.as_arr()?.iter().filter_map(|e| e.as_usizes()).map(|e| (e[0], e[1])).collect();
+        let scratch = Scratch::new("c09r");
+        return Some(eval_cli_equals_in_names(&list, &scratch).into_iter().map(|(k, w, _)| format!("{k} :: {w}")).collect());
+    }
     if case.get("kind").and_then(|k| k.as_str()) == Some("c09-empty-label") {
         let list: Vec<Entry> = case.get("list")?.as_arr()?.iter().filter_map(|e| e.as_usizes()).map(|e| (e[0], e[1])).collect();
         let scratch = Scratch::new("c09r");
